@@ -188,6 +188,77 @@ Section Resolve.
     end.
 End Resolve.
 
+(** * The repaired resolver (commit d297b59 "only the package location itself may be a WIT package directory")
+
+    The code as found is [resolve_one] above.  The repaired code computes, together with the path, whether the path
+    is the package's OWN location ([in_place]: an explicit override, or B itself when B is a directory); the suffixed
+    candidate "B.wat" is probed with [is_file] instead of [exists], and a directory is read as a WIT package only when
+    [in_place].  [resolve_one_fixed] is what /repo's fs.rs does now; the correspondence runs against it. *)
+Section ResolveFixed.
+  Variable wat_parse : content -> option content.
+  Variable wit_dir_encode : content -> option content.
+  Variable wit_file_encode : content -> option content.
+  Variable wat : bool.
+
+  Definition select_path_fixed (fs : filesystem) (cfg : config) (k : key) : option (path * bool) :=
+    match lookup (overrides cfg) (k_name k), k_version k with
+    | Some p, None =>
+        if negb (is_file fs p) then None else Some (p, true)
+    | _, _ =>
+        let pb := fold_left push (split_on ch_colon (k_name k)) (root cfg) in
+        let pb := match k_version k with Some v => push pb v | None => pb end in
+        let in_place := is_dir fs pb in
+        Some (if negb in_place then
+                let pb := append_extension pb s_wasm in
+                if wat then
+                  let pb := set_extension pb s_wat in
+                  if negb (is_file fs pb) then set_extension pb s_wasm else pb
+                else pb
+              else pb, in_place)
+    end.
+
+  (** Everything after the WIT-directory test. *)
+  Definition load_rest (cfg : config) (path : path) (n : node) : outcome :=
+    if has_ext path s_wit then               (* else if extension == "wit" { push_file; encode } *)
+      match n with
+      | File c => match wit_file_encode c with
+                  | Some b => Loaded SrcWitFile path b
+                  | None => ErrResolution WitFileFailed
+                  end
+      | _ => ErrResolution WitFileFailed     (* push_file cannot read it *)
+      end
+    else
+      match n with
+      | File c =>                            (* fs::read *)
+          if wat && has_ext path s_wat then
+            match wat_parse c with
+            | Some b => Loaded SrcWat path b
+            | None => ErrResolution WatFailed
+            end
+          else Loaded SrcRaw path c
+      | _ =>                                 (* if !path.is_file() *)
+          if error_on_unknown cfg then ErrUnknown else Skipped
+      end.
+
+  Definition load_fixed (fs : filesystem) (cfg : config) (path : path) (in_place : bool) : outcome :=
+    match fs path with
+    | Dir c =>
+        if in_place then                     (* if in_place && path.is_dir() { push_dir; encode } *)
+          match wit_dir_encode c with
+          | Some b => Loaded SrcWitDir path b
+          | None => ErrResolution WitDirFailed
+          end
+        else load_rest cfg path (Dir c)
+    | n => load_rest cfg path n
+    end.
+
+  Definition resolve_one_fixed (fs : filesystem) (cfg : config) (k : key) : outcome :=
+    match select_path_fixed fs cfg k with
+    | None => ErrResolution OverrideMissing
+    | Some (path, in_place) => load_fixed fs cfg path in_place
+    end.
+End ResolveFixed.
+
 (** A finite file system given as an association list (used by the correspondence driver and by
     examples); anything not listed is absent. *)
 Fixpoint path_eqb (a b : path) : bool :=
